@@ -108,7 +108,7 @@ fn run_op(fixtures: &HashMap<String, Fixture>, op: &MOp, t: usize, i: usize, out
                 crate::fixtures_gen::call_sync(&f.name, op.k).expect("fixture")
             };
             let (executed, body_ret) = take_exec();
-            (format!("{:?}", op.k), executed, o.val, body_ret, json!({"ok": o.ok}))
+            (f.key_of(op.k), executed, o.val, body_ret, json!({"ok": o.ok}))
         }
         "inv_with" => {
             let sel: Vec<String> = serde_json::from_value(op.sel.clone()).unwrap_or_default();
